@@ -29,5 +29,12 @@ let run () =
         let tape = List.init 600 (fun k -> (z_of_int ((ts + 7 * k + 3 * k * k) mod 64), z_of_int 64)) in
         let (q, ret) = rv_run (ni n) (ni ms) (ni me) (z_of_int (int_of_string rn)) (z_of_int (int_of_string rd)) ok tape in
         Printf.printf "rv %d |%s\n" (if ret then 1 else 0) (String.concat "" (List.map (fun v -> " " ^ string_of_int (int_of_nat v)) q))
+    | "CC" :: ms :: me :: rest ->
+        let ni s = nat_of_int (int_of_string s) in
+        let rec split acc = function "|" :: t -> (List.rev acc, t) | x :: t -> split (x :: acc) t | [] -> (List.rev acc, []) in
+        let (xs, pairs) = split [] rest in
+        let ok = List.map (fun t -> let k = String.index t '-' in (ni (String.sub t 0 k), ni (String.sub t (k + 1) (String.length t - k - 1)))) pairs in
+        let (q, ret) = cc_run (List.map (fun x -> z_of_int (int_of_string x)) xs) (ni ms) (ni me) ok in
+        Printf.printf "cc %d |%s\n" (if ret then 1 else 0) (String.concat "" (List.map (fun v -> " " ^ string_of_int (int_of_nat v)) q))
     | ["SUBDIV"; n] -> let n = int_of_string n in Printf.printf "total %d\n" (int_of_z (total_states (nat_of_int n) (subdivide_counts (nat_of_int n))))
     | _ -> ())
